@@ -150,7 +150,7 @@ def class_desc(c, path, insts, new_name=None):
             d['ops'].append({'op': m.op, 'ret': cpp_ret(subst_ret(m.ret, env, this)),
                              'args': _args_desc(m.args, env, this)})
         elif m.k == 'Dunder':
-            d['dunders'].append({'name': m.name, 'args': _args_desc(m.args, {}, None)})
+            d['dunders'].append({'name': m.name, 'args': _args_desc(m.args, env, this)})
         elif m.k == 'Enum':
             d['enums'].append((m.name, list(m.enumerators)))
     return d
